@@ -145,7 +145,7 @@ func C16FlOld() {
 		ra.Release(n)
 	}
 	failAt := zz.NondetChoice("failAt", len(f.input)+1)
-	rb := zzNewReader(&zzChunkReader{data: f.input, failAt: failAt, ioErr: zzIOErr}, decl, 4096)
+	rb := zzNewReader(&zzChunkReader{data: f.input, failAt: failAt, ioErr: zzPickIOErr()}, decl, 4096)
 	got := 0
 	pending := ""
 	havePending := false
@@ -216,4 +216,46 @@ func C12FlOldNoRelease() {
 			zz.Assert(fresh[i] != fresh[j], "two acquisitions never return the same node")
 		}
 	}
+}
+
+// C09FlOldCuts: the old fixed-length reader (by_rows and by_header_footer envelopes) gives the
+// same transcript — records with their first column, the terminal error or EOF — whether the
+// source delivers everything in one Read or cuts it at arbitrary positions (also right after a
+// line break, where bufio has nothing buffered behind the line it just returned).
+func C09FlOldCuts() {
+	NL := zz.Param("NL", 3)
+	LL := zz.Param("LL", 3)
+	f := zzMakeLines(NL, LL)
+	var decl *FileDecl
+	if zz.NondetBool("headerFooter") {
+		name := "e"
+		decl = &FileDecl{Envelopes: []*EnvelopeDecl{
+			{Name: &name, ByHeaderFooter: &ByHeaderFooterDecl{Header: "^H", Footer: "^F"},
+				Columns: []*ColumnDecl{{Name: "c1", StartPos: 1, Length: LL}}},
+			{Name: &name, ByHeaderFooter: &ByHeaderFooterDecl{Header: "^[^H]", Footer: "."},
+				Columns: []*ColumnDecl{{Name: "c1", StartPos: 1, Length: LL}}},
+		}}
+	} else {
+		decl = zzRowsDecl(1+zz.NondetChoice("rows", 2), LL)
+	}
+	one := zzNewReader(&zzChunkReader{data: f.input, failAt: -1}, decl, 4096)
+	cut := zzNewReader(&zzChunkReader{data: append([]byte{}, f.input...), failAt: -1,
+		cuts: zzCuts(zz.Param("CUTS", 2), len(f.input))}, decl, zz.Param("BUF", 16))
+	for i := 0; i < NL+2; i++ {
+		n1, e1 := one.Read()
+		n2, e2 := cut.Read()
+		zz.Assert((e1 == nil) == (e2 == nil), "same kind of result whatever the chunking")
+		if e1 != nil || e2 != nil {
+			zz.Cover("terminal")
+			zz.Assert((e1 == io.EOF) == (e2 == io.EOF), "EOF under one chunking is EOF under every chunking")
+			return
+		}
+		zz.Cover("record")
+		t1, ok1 := zzColText(n1, 0)
+		t2, ok2 := zzColText(n2, 0)
+		zz.Assert(ok1 == ok2 && t1 == t2, "same record whatever the chunking")
+		one.Release(n1)
+		cut.Release(n2)
+	}
+	zz.Fail("no terminal result within the read bound")
 }
